@@ -51,26 +51,26 @@ variable {α : Type} [One α] [Inhabited α]
 theorem ExpTerm.edgesAt_keys (t : ExpTerm α) (lab : Key) (k : Nat) : KeysIn lab (t.edgesAt lab k) := by
   unfold ExpTerm.edgesAt ExpTerm.bodyEdges
   repeat' first
-    | exact KeysIn.nil _
-    | apply KeysIn.cons
-    | apply KeysIn.ite
-    | apply KeysIn.append
     | exact ⟨Or.inl rfl, Or.inl rfl⟩
     | exact ⟨Or.inl rfl, Or.inr rfl⟩
     | exact ⟨Or.inr rfl, Or.inl rfl⟩
     | exact ⟨Or.inr rfl, Or.inr rfl⟩
+    | exact KeysIn.nil _
+    | refine KeysIn.cons ?_ ?_
+    | refine KeysIn.ite _ ?_ ?_
+    | refine KeysIn.append ?_ ?_
 
 theorem CenteredTerm.edgesAt_keys (t : CenteredTerm α) (lab : Key) (k : Nat) : KeysIn lab (t.edgesAt lab k) := by
   unfold CenteredTerm.edgesAt CenteredTerm.edgesL CenteredTerm.edgesR CenteredTerm.bodyL CenteredTerm.bodyR
   repeat' first
-    | exact KeysIn.nil _
-    | apply KeysIn.cons
-    | apply KeysIn.ite
-    | apply KeysIn.append
     | exact ⟨Or.inl rfl, Or.inl rfl⟩
     | exact ⟨Or.inl rfl, Or.inr rfl⟩
     | exact ⟨Or.inr rfl, Or.inl rfl⟩
     | exact ⟨Or.inr rfl, Or.inr rfl⟩
+    | exact KeysIn.nil _
+    | refine KeysIn.cons ?_ ?_
+    | refine KeysIn.ite _ ?_ ?_
+    | refine KeysIn.append ?_ ?_
 
 theorem expNew_keys (e : ExpDecayTerms α) (k : Nat) : ∀ x ∈ expNew e k,
     (x.kL = Key.IdL ∨ ∃ nr, x.kL = ExpDecayTerms.expLabel nr) ∧
@@ -143,10 +143,12 @@ theorem expComps_pairwise (e : ExpDecayTerms α) :
     simp only at this
     omega
 
+omit [CommSemiring α] [Inhabited α] in
 theorem ExpDecayTerms.FWF.term_OK {e : ExpDecayTerms α} (hwf : e.FWF) (t : ExpTerm α) (ht : t ∈ e.terms) :
     t.OK e.L :=
   ⟨(hwf.subs t ht).1, (hwf.subs t ht).2, (hwf.starts t ht).1, (hwf.starts t ht).2.1, (hwf.starts t ht).2.2⟩
 
+omit [CommSemiring α] [Inhabited α] in
 theorem ExpDecayTerms.FWF.cent_OK {e : ExpDecayTerms α} (hwf : e.FWF) (t : CenteredTerm α) (ht : t ∈ e.centered) :
     t.OK e.L :=
   ⟨(hwf.csubs t ht).1, (hwf.csubs t ht).2.1, (hwf.csubs t ht).2.2⟩
@@ -170,6 +172,7 @@ theorem expComps_OK (e : ExpDecayTerms α) (hwf : e.FWF) : ∀ c ∈ expComps e,
       exact List.getElem_mem _
     exact t.comp_OK e.L (hwf.cent_OK t ht) _ (expLabel_ne_IdL _) (expLabel_ne_IdR _)
 
+omit [Inhabited α] in
 theorem flatMap_zipIdx_equiv {τ : Type} (l : List τ) (F : τ × Nat → Sym α) (G : τ → Sym α)
     (h : ∀ t ∈ l, ∀ nr, Sym.Equiv (F (t, nr)) (G t)) :
     ∀ n, Sym.Equiv ((l.zipIdx n).flatMap F) (l.flatMap G) := by
@@ -255,5 +258,37 @@ theorem exp_fromTerms (L : Nat) (e : ExpDecayTerms α) (he : e.L = L) (hwf : e.F
   exact List.Perm.refl _
 
 end main
+
+/-! ## non-vacuity: concrete containers over `Int` -/
+section nonvacuity
+
+def expExA : ExpTerm Int := ⟨7, [2, 3, 5, 11, 13], "A", "B", [0, 2, 3], [0, 2, 3], "S"⟩
+/-- `subsitesStart ≠ subsites` -/
+def expExB : ExpTerm Int := ⟨-3, [19, 23, 29, 31, 37], "C", "D", [1, 2, 4], [0, 1, 3], "T"⟩
+def expExC : CenteredTerm Int := ⟨5, [43, 47, 53, 59, 61], "E", "F", 2, [0, 2, 3, 4], "U"⟩
+def expExE : ExpDecayTerms Int := ⟨5, [expExA, expExB], []⟩
+def expExE2 : ExpDecayTerms Int := ⟨5, [expExA, expExB], [expExC]⟩
+
+example : expExE.FWF := ⟨by decide, by decide, by decide⟩
+example : expExE2.FWF := ⟨by decide, by decide, by decide⟩
+
+example : canon 0 (denoteGraph (Graph.fromTerms 5 false [.expdecay expExE])) =
+    canon 0 (STermList.denote 5 (expExE.toTermListFinite (fun _ => false))) := by decide +kernel
+
+example : canon 0 (denoteGraph (Graph.fromTerms 5 false [.expdecay expExE2])) =
+    canon 0 (STermList.denote 5 (expExE2.toTermListFinite (fun _ => false))) := by decide +kernel
+
+/-- the sums are not trivial: 3 + 6 + 3 different operator strings -/
+example : (canon 0 (STermList.denote 5 (expExE2.toTermListFinite (fun _ => false)))).length = 12 := by
+  decide +kernel
+
+/-- the hypothesis `subsitesStart ≠ []` of `FWF` is needed for the MODEL: python raises `IndexError` at
+`subsites_start[0]`, the model's `headD 0` opens a term at site 0 that `to_TermList` does not list -/
+example : canon 0 (denoteGraph (Graph.fromTerms 3 false
+      [.expdecay (⟨3, [⟨1, [2, 3, 5], "A", "B", [0, 2], [], "S"⟩], []⟩ : ExpDecayTerms Int)])) ≠
+    canon 0 (STermList.denote 3 ((⟨3, [⟨1, [2, 3, 5], "A", "B", [0, 2], [], "S"⟩], []⟩ :
+      ExpDecayTerms Int).toTermListFinite (fun _ => false))) := by decide +kernel
+
+end nonvacuity
 
 end TenpyModel.Ops
